@@ -74,12 +74,14 @@ Theorem alloca_chain_pairwise_disjoint : forall bl lo hi, chain lo bl hi ->
 Proof. exact chain_disjoint. Qed.
 Print Assumptions alloca_chain_pairwise_disjoint.
 
-(* The "aligned" half of DESIGN's alloca_merge_disjoint_aligned is false of the code: an 8-byte
-   alloca after (16, 1) gets offset 17 (no behavioural consequence on x86-64; see design/C04.md). *)
-Theorem alloca_merge_aligned_refuted :
-  fst (consolidate 16 [1; 8]) = [0; 16; 17] /\ natural_alignment 8 = 8 /\ 17 mod 8 <> 0.
-Proof. exact consolidate_misaligned_example. Qed.
-Print Assumptions alloca_merge_aligned_refuted.
+(* ... and every block lies at a multiple of the natural alignment of its (normalised) size - the
+   second half of DESIGN's alloca_merge_disjoint_aligned.  It was false of the snapshot
+   (alloca 16; alloca 1; alloca 8 put the 8-byte block at offset 17); the model follows 09d7e093, and the
+   model is tied to the code by the offset correspondence run of checks/c04.py. *)
+Theorem alloca_merge_aligned : forall s0 rest,
+  Forall2 aligned_block (fst (consolidate s0 rest)) (s0 :: rest).
+Proof. exact consolidate_aligned. Qed.
+Print Assumptions alloca_merge_aligned.
 
 (* Link-time shortcuts.  Every opcode the CURRENT mir.c lists for "insn x,y,1 => mov x,y"
    (resp. "insn x,y,0") computes, for all 2^64 values of y, a result whose defined bits equal
